@@ -27,6 +27,8 @@ CHECKS.update({
     "C04": e1("Same exploration with overlapping durations (up to 5 and 9 back-off periods, incl. durations just below a 10-period timeout budget) and 2-4 workers converging on one setup chain; oracle: sweep over execution intervals per (test, scope) <= configured max_concurrent_tries (two-step creation as one interval), each back-off sleep <= max(test_timeout*max_tries/1000, 0.1) with nothing held while sleeping."),
     "C05": e1("Same exploration over graphs with removable (unset_mode f.) states at several depths (tutorial_gui / tutorial_get, lazy and eager), unset_mode / pool_filter / retry settings; oracle (post hoc on the complete trace): every unset request concerns a state marked f., no dependant is running at that instant or starts later without re-creation, no copy request with the default pool filter, unmarked setup is never unset."),
     "C10": e1("Every outcome sequence over the seven reportable statuses up to max_tries per test is enumerated on the real traversal for each max_tries / rerun_status / stop_status setting (one worker: exact execution count against a decision-table reference; two workers: all schedules within k, no execution may start once the statuses obtained so far forbid it), invalid settings must end in an error, replays of a previous job with every assignment of previous results x states present/missing, distinct uids, per-try result read-back, and all_results_ok() against the recorded results."),
+    "C15": e1("The real intertest_setup.update is run on the virtual-time loop (selftest job seam, world model) for all (from_state,to_state) pairs along vm1's declared chain incl. non-existent names, default and explicit remove_set, 1-2 vms, 1-3 workers, default schedule plus every single duration/tie deviation for multi-worker cases; expected path and derived states come from an own resolver over the flat Cartesian declarations: each path test runs exactly once, exactly the derived states of the selected vms are removed on every worker, nothing else runs or is removed, non-existent states are rejected without side effects."),
+    "C20": e1("The real Manu.run (real params_from_cmd, real tools) is run on the virtual-time loop for chains of length 1-3 over check/get/set/unset/push/pop/boot/shutdown/noop x vm selections x worker sets with restricted workers first/middle/last, plus one failing execution at every position; oracle: per step the multiset of executions is exactly one per (selected vm, compatible worker) (one per worker covering all vms for boot/shutdown) with the step's vm_action and state parameter, no unselected vm, steps in order, return code 1 iff an execution failed with later steps still run."),
     "C08": e1("Same exploration over mixed restricted workers, swarms and clusters, retries and replay; oracle at every test start: executing worker == the worker the test was parsed for, its nets_* parameters equal the worker's, its vm variants satisfy the worker's only/no restrictions, and for each required state the workers named in get_location are exactly those with a completed PASS execution (or replayed PASS result) of a producer, the shared pool is always named, and the named workers' access parameters are theirs."),
 })
 
